@@ -188,7 +188,9 @@ pub fn gen_world(seed: u64) -> C13World {
             },
             14 if from_dir.map(|d| copies[name].contains(&format!("{d}/sub"))).unwrap_or(false) => format!("sub/{name}"),
             15 if from_dir == Some("app") && copies[name].contains(&"app".to_string()) => format!("sub/../{name}"),
-            16 | 17 if has_lnk && from_dir == Some("app") && copies[name].contains(&"j0".to_string()) => format!("lnk/{name}"),
+            16 if has_lnk && from_dir == Some("app") && copies[name].contains(&"j0".to_string()) => format!("lnk/{name}"),
+            // app/lnk -> ../j0, so app/lnk/.. is the root: textual folding of `lnk/..` would name another place
+            17 if has_lnk && from_dir == Some("app") => format!("lnk/../{}", path_of(&t, name)),
             18 | 19 if alias_d && name == "d.libsonnet" && (from_dir == Some("app") || from_dir == Some(".")) => "alias_d.libsonnet".to_string(),
             _ => name.to_string(),
         }
